@@ -169,7 +169,11 @@ Leaf(P, R, wt, QI, EA) ==
       T    == wf[1]
       U    == wf[2]
       ok   == EvOK(P, T, U)
-      und  == \E a \in QI \cup EA : a \in U /\ a \notin T
+      \* the evidence is not definitely contradicted in this world (atoms may still be undefined)
+      evPossible == \A i \in DOMAIN P.evidence :
+                      LET a == GA(P.evidence[i].atom, <<>>)
+                      IN  IF P.evidence[i].s = 1 THEN a \in U ELSE a \notin T
+      und  == evPossible /\ \E a \in QI \cup EA : a \in U /\ a \notin T
   IN  [ den    |-> IF ok THEN wt ELSE 0,
         num    |-> [ q \in QI |-> IF ok /\ q \in T THEN wt ELSE 0 ],
         undefW |-> IF wt > 0 /\ und THEN 1 ELSE 0,
